@@ -326,6 +326,8 @@ func (w *World) sleep(d time.Duration) {
 const maxSimTime = 150 * 365 * 24 * time.Hour
 
 func (w *World) advanceTo(at time.Duration) {
+	w.stimAny = true
+	defer func() { w.stimAny = false }()
 	for _, n := range w.nodes {
 		if n.mainParked != nil && n.realTrig != nil && n.realTrig.armed && !n.realTrig.seen && n.realTrig.expiry <= at {
 			w.forceReleaseMain(n) // its real timer expires on the way: the main loop must be at its select by then
